@@ -469,6 +469,8 @@ class ParserText(ParserBase):
         try:
             value = self._parsable[self._parsed_length:]
             date_time = dateutil.parser.parse(six.ensure_text(value, self._encoding))
+            if date_time.utcoffset() is not None:
+                date_time.astimezone(dateutil.tz.UTC)  # the composer needs the instant in UTC, it must be representable
         except (ValueError, ArithmeticError) as e:
             six.raise_from(InvalidValue(value, type(self), 'value'), e)
 
